@@ -21,6 +21,7 @@ import json
 import os
 import re
 import select
+import shutil
 import subprocess
 import time
 from concurrent.futures import ThreadPoolExecutor
@@ -862,6 +863,9 @@ def justify_trace(ml_exe, harness_exe, path):
             r = meta[1]
             nev += 1
             stats["mate_nodes_checked"] = stats.get("mate_nodes_checked", 0) + 1
+            if verdict == "OK" and "sample" not in stats and r.site in (13, 16, 18, 22) and r.fen:
+                stats["sample"] = {"justified_node": {"fen": r.fen, "function": "quiesce" if r.fn else "negaScout", "ply": r.ply, "depth": r.depth,
+                                                       "window": [r.alpha, r.beta], "score": r.score, "return_site": SITE_NAMES.get(r.site), "checker_request": l}}
             if verdict != "OK":
                 r.ok = False
                 breaks.append(dict(kind="node", what="mate score with no applicable rule", site=SITE_NAMES.get(r.site, r.site),
@@ -1076,7 +1080,7 @@ def run_session(sess):
 def plan_sessions(ctx, oracle, engines, harness_exe, traced):
     rng = ctx.rng
     q = ctx.quick
-    endg = [random_endgame(rng, oracle) for _ in range(ctx.scale(24, 200))]
+    endg = [random_endgame(rng, oracle) for _ in range(ctx.scale(24, 80))]
     mates = find_mate_positions(ctx, oracle, ctx.scale(45, 400), ctx.scale(2, 3), ctx.scale(250, 1500))
     m1 = mate_in_one_set(ctx, oracle, ctx.scale(90, 400))
     # harvest more mate-in-one positions of rare kinds from the random-play set
@@ -1098,7 +1102,7 @@ def plan_sessions(ctx, oracle, engines, harness_exe, traced):
             mated.append(mp[ms[0]][1])        # after the mating side's first move: the other side is mated in d-1
     jobs = []
     for fen in endg:
-        jobs.append((fen, rng.choice([6, 7, 8, 8] if q else [6, 8, 10, 12, 14]), rng.random() < 0.3, "endgame"))
+        jobs.append((fen, rng.choice([6, 7, 8, 8] if q else [6, 7, 8, 9]), rng.random() < 0.3, "endgame"))
     for fen, d, ms in mates:
         jobs.append((fen, rng.choice([3, 4, 5, 6, 7, 8] if q else [3, 5, 7, 9, 11]), rng.random() < 0.3, "mate%d" % d))
     for fen in mated:
@@ -1216,7 +1220,8 @@ def run(ctx):
     nchunk = ctx.scale(6, 24)
     chunks = [dreqs[i::nchunk] for i in range(nchunk)]
     tdir = os.path.join("/tmp", "c04-%d" % os.getpid())
-    os.makedirs(tdir, exist_ok=True)
+    if traced:
+        os.makedirs(tdir, exist_ok=True)
     dtraces = [os.path.join(tdir, "dtrace-%d.txt" % i) if traced else None for i in range(nchunk)]
 
     def run_chunk(i):
@@ -1273,6 +1278,8 @@ def run(ctx):
             ctx.evaluated(nev)
             for k in keys:
                 ctx.nontrivial(k)
+            if "sample" in st:
+                ctx.sample(st.pop("sample"))
             for k, v in st.items():
                 if k in ("eval_min",):
                     tstats[k] = min(tstats.get(k, 0), v)
@@ -1281,6 +1288,8 @@ def run(ctx):
                 else:
                     tstats[k] = tstats.get(k, 0) + v
         ctx.log("certificates: %s" % json.dumps(tstats, sort_keys=True))
+        ctx.notes["return_sites_without_a_mate_score_node_in_this_run"] = sorted(
+            str(v) for k, v in SITE_NAMES.items() if k not in (0, 3, 4, 6, 7, 14, 15, 19) and ("site_%s" % v) not in tstats)
         ctx.notes["certificate_wall_s"] = round(time.time() - t1, 1)
         ctx.traces_validated = sum(1 for s in units if s.get("trace"))
         for k, v in tstats.items():
@@ -1289,10 +1298,7 @@ def run(ctx):
             if s.get("trace") and os.path.exists(s["trace"]) and not os.environ.get("C04_KEEP_TRACES"):
                 os.remove(s["trace"])
         if not os.environ.get("C04_KEEP_TRACES"):
-            try:
-                os.rmdir(tdir)
-            except OSError:
-                pass
+            shutil.rmtree(tdir, ignore_errors=True)
         if tstats.get("mate_nodes_checked", 0) == 0:
             breaks.append(dict(kind="trace", what="hook present but no mate-score node was logged"))
     # verdict
@@ -1391,6 +1397,9 @@ def replay(ctx, body):
             return
         print("failing input:", json.dumps(f, indent=1))
         fen = f["fen"]
+        if str(f.get("request", "")).startswith("D "):
+            # directed node search: the table state of the original run is not reproduced (fresh table)
+            print("directed node search now returns:", batch(harness_exe, [f["request"]]))
         print("solver: mate_in<=3:", oracle.mate_in(fen, 3), " mated_in<=3:", oracle.mated_in(fen, 3))
         if f.get("go_depth"):
             exe = cbuild.build_engine(net_kind=f.get("net", "material"), net_seed=1 if f.get("net", "material") == "material" else ctx.seed)
